@@ -218,8 +218,14 @@ static void op_fd_register(struct fdrec *r, int pattern, int try)
 		if (fail) {
 			sx_assert(ret != 0, "C07.register_try-reported-success-on-failure");
 			sx_assert(!iv_fd_registered(fd), "C07.failed-register-left-registered");
-			free(fd);
-			r->obj = NULL;
+			if (P_acts & ACT_REG_FD) {
+				/* the application keeps the struct and registers it later, as it is */
+				sx_cover("fd.struct-kept-after-failed-try");
+				r->kept = 1;
+			} else {
+				free(fd);
+				r->obj = NULL;
+			}
 			for (b = 0; b < 3; b++)
 				r->want[b] = 0;
 			return;
@@ -815,6 +821,8 @@ void sx_main(void)
 
 	/* setup: initial registrations */
 	for (i = 0; i < nK; i++) {
+		if (i > 0 && i == nK - 1 && sx_opt("lastunreg", 0))
+			continue;	/* left for the registration operations */
 		pat = sx_choose((int)sx_opt("patterns", 2));
 		op_fd_register(&F[i], pat, 0);
 	}
